@@ -191,6 +191,8 @@ func (c *compiler) compileTryStatement(v *ast.TryStatement, needResult bool) {
 		if bodyNeedResult && finallyBreaking != nil && lp == -1 {
 			c.emit(clearResult)
 		}
+		// only the branches of the try and catch blocks are overridden by the branch of the finally block
+		c.block.breaking = nil
 		c.compileBlockStatement(v.Finally, false)
 		c.emit(leaveFinally{})
 	} else {
